@@ -58,3 +58,45 @@ Proof.
   intros H1 H2. destruct ev as [[h|]|h|dt]; cbn [bstep]; destruct (b_phase s) eqn:E; cbn; try congruence;
   try (destruct (deadline <=? b_now s + dt); cbn; rewrite ?E; congruence).
 Qed.
+
+(* ---------- "within one poll interval", over every history ---------- *)
+Fixpoint bouts (s : bsys) (evs : list bevent) : list bout :=
+  match evs with [] => [] | ev :: r => snd (bstep s ev) ++ bouts (fst (bstep s ev)) r end.
+Fixpoint ticks (evs : list bevent) : N :=
+  match evs with [] => 0 | BvTick dt :: r => dt + ticks r | _ :: r => ticks r end.
+
+(* the sleep deadline lies ahead of the clock, by at most one poll interval *)
+Definition sleep_ok (s : bsys) : Prop := match b_phase s with BSleeping d => b_now s < d <= b_now s + POLL_MS | _ => True end.
+
+Lemma sleep_ok_step s ev : sleep_ok s -> sleep_ok (fst (bstep s ev)).
+Proof.
+  unfold sleep_ok, POLL_MS. intros H. destruct ev as [[h|]|h|dt]; cbn [bstep]; destruct (b_phase s) as [|d| |] eqn:E;
+    cbn [fst b_phase b_now]; rewrite ?E; unfold POLL_MS in *; try exact I; try exact H; try lia.
+  destruct (d <=? b_now s + dt) eqn:E2; cbn [fst b_phase b_now]; [exact I|lia].
+Qed.
+
+Lemma sleep_ok_run evs : forall s, sleep_ok s -> sleep_ok (brun s evs).
+Proof. induction evs as [|ev r IH]; intros s H; cbn [brun]; [exact H|]. apply IH, sleep_ok_step, H. Qed.
+
+Lemma sleep_ok_init : sleep_ok bsys0.
+Proof. exact I. Qed.
+
+(* while the loop sleeps, ticks that reach its deadline make it issue the next getinfo — whatever else happens in between *)
+Lemma sleeping_polls evs : forall s d, b_phase s = BSleeping d -> b_now s < d -> d <= b_now s + ticks evs -> In BGetInfo (bouts s evs).
+Proof.
+  induction evs as [|ev r IH]; intros s d Hp Hlt Hd; cbn [bouts ticks] in *; [lia|].
+  destruct ev as [[h|]|h|dt]; cbn [bstep]; rewrite Hp; cbn [fst snd app].
+  - apply (IH s d Hp Hlt Hd).
+  - apply (IH s d Hp Hlt Hd).
+  - apply (IH _ d); cbn [b_phase b_now]; auto.
+  - destruct (d <=? b_now s + dt) eqn:E; cbn [fst snd app]; [left; reflexivity|].
+    apply (IH _ d); cbn [b_phase b_now]; [reflexivity|lia|lia].
+Qed.
+
+(* from every state of every history: if the loop sleeps, any continuation in which one poll interval of time passes contains a getinfo *)
+Theorem poll_within_interval pre evs d :
+  b_phase (brun bsys0 pre) = BSleeping d -> POLL_MS <= ticks evs -> In BGetInfo (bouts (brun bsys0 pre) evs).
+Proof.
+  intros Hp Ht. pose proof (sleep_ok_run pre bsys0 sleep_ok_init) as Hs. unfold sleep_ok in Hs. rewrite Hp in Hs.
+  apply (sleeping_polls evs _ d Hp); lia.
+Qed.
